@@ -26,7 +26,8 @@ Forms == {"plain", "escape", "escape-js", "escape-attr", "escape-css", "escape-u
           "concat", "literal", "number", "empty", "escape-raw", "tern", "stringer", "stringer-escape", "stringer-js",
           "tern-raw-else", "tern-raw-then", "tern-esc-else", "tern-paren-raw", "tern-chain-raw", "plain-q1", "plain-q2", "plain-q3", "attr-q1",
           "plain-q4", "js-q4", "css-q4", "url-q4", "attr-q4", "derived-orig", "derived-new",
-          "escape-bogus", "escape-empty", "escape-upper", "paren-escape", "paren-attr", "paren-raw", "paren2-js"}
+          "escape-bogus", "escape-empty", "escape-upper", "paren-escape", "paren-attr", "paren-raw", "paren2-js",
+          "raw-replace", "safe-replace", "safe-upper"}
 Places == {"top", "if", "else", "for", "block", "inherited", "included", "embedded", "override", "capture", "section", "macro", "forelse", "override2", "top-txt", "top-js"}
 
 PrintOf(form) ==
@@ -55,6 +56,10 @@ PrintOf(form) ==
     [] form = "escape-bogus" -> PrintS(Pipe(NameE("x"), "escape", <<StrE("bogus")>>))
     [] form = "escape-empty" -> PrintS(Pipe(NameE("x"), "escape", <<StrE("")>>))
     [] form = "escape-upper" -> PrintS(Pipe(NameE("x"), "escape", <<StrE("HTML")>>))
+    (* a filter of the twig package applied to a value marked safe gives a new, unmarked value: what was spliced in was never marked *)
+    [] form = "raw-replace" -> PrintS(Pipe(Pipe(StrE("[%s%]"), "raw", <<>>), "replace", <<HashE(<< <<StrE("%s%"), NameE("x")>> >>)>>))
+    [] form = "safe-replace" -> PrintS(Pipe(NameE("sh"), "replace", <<HashE(<< <<StrE("zz"), NameE("x")>> >>)>>))
+    [] form = "safe-upper" -> PrintS(Pipe(NameE("sh"), "upper", <<>>))
     (* parentheses that merely restate the grouping *)
     [] form = "paren-escape" -> PrintS(Grp(Pipe(NameE("x"), "escape", <<>>)))
     [] form = "paren-attr" -> PrintS(Grp(Pipe(NameE("x"), "escape", <<StrE("html_attr")>>)))
@@ -103,6 +108,9 @@ Seg(form, ct) ==
     [] form = "url-q4" -> E("url", Payload4) [] form = "attr-q4" -> E("html_attr", Payload4)
     [] form \in {"tern-raw-else", "tern-raw-then", "tern-esc-else", "tern-paren-raw", "tern-chain-raw", "plain-q1", "plain-q2", "plain-q3", "attr-q1",
           "plain-q4", "js-q4", "css-q4", "url-q4", "attr-q4", "derived-orig", "derived-new"} -> E(ct, Payload)
+    [] form = "raw-replace" -> E(ct, <<91>> \o Payload \o <<93>>)
+    [] form = "safe-replace" -> E(ct, Payload)
+    [] form = "safe-upper" -> E(ct, AsciiUpper(Payload))
     [] form = "stringer-escape" -> E("html", Payload)
     [] form = "stringer-js" -> E("js", Payload)
     [] OTHER -> E(ct, Payload)
